@@ -154,6 +154,8 @@ type Machine struct {
 	cdirs       map[*LObj]*cDir
 	hangLimit   int
 	faultOpen   int
+	allocBytes  int64
+	allocLimit  int64 // > 0: VerifAllocBudget in force
 	maxSteps    int
 	quietFS     bool
 	mainProc    int
@@ -987,7 +989,18 @@ func (m *Machine) makeSlice(fr *frame, i *ssa.MakeSlice) Val {
 		m.tpanic("alloc", "makeslice: cap out of range", i.Pos())
 	}
 	el := i.Type().Underlying().(*types.Slice).Elem()
+	m.countAlloc(int64(c), i.Pos())
 	return Slice{arr: newArrayFor(el, c), len: n, cap: c}
+}
+
+// countAlloc adds to the running allocation total; beyond a budget stated by
+// the harness (VerifAllocBudget) it is "allocation without bound".
+func (m *Machine) countAlloc(n int64, pos token.Pos) {
+	m.allocBytes += n
+	if m.allocLimit > 0 && m.allocBytes > m.allocLimit {
+		m.allocLimit = 0
+		m.tpanic("alloc", "allocation budget stated by the harness exceeded", pos)
+	}
 }
 
 func (m *Machine) next(it *mapIter, i *ssa.Next) Val {
